@@ -21,6 +21,7 @@ type mutant struct {
 	Expect []string `json:"expect"` // substrings of obligation names that must fail
 	Only   string   `json:"only"`   // function substring to restrict generation
 	Props  []string `json:"props"`
+	Module string   `json:"module"` // sub-module of the repository ("" = root, "v2")
 }
 
 func cmdSelftest(args []string) int {
@@ -31,7 +32,11 @@ func cmdSelftest(args []string) int {
 	propsF := fs.String("props", "", "only mutants of these properties")
 	par := fs.Int("j", 4, "parallel mutants")
 	verbose := fs.Bool("v", false, "verbose")
+	module := fs.String("module", "", "run the mutants of this sub-module (e.g. v2) instead of the root module's")
 	fs.Parse(args)
+	if *module != "" {
+		specSubdir = "spec_" + *module
+	}
 	var corpus []mutant
 	ents, _ := filepath.Glob(filepath.Join(*verif, "selftest", "*.json"))
 	for _, f := range ents {
@@ -54,6 +59,9 @@ func cmdSelftest(args []string) int {
 	sem := make(chan struct{}, *par)
 	for _, m := range corpus {
 		if *filter != "" && !strings.Contains(m.Name, *filter) {
+			continue
+		}
+		if m.Module != *module {
 			continue
 		}
 		if *propsF != "" && !intersects(m.Props, strings.Split(*propsF, ",")) {
@@ -85,6 +93,11 @@ func cmdSelftest(args []string) int {
 }
 
 func runMutant(repo, verif string, m mutant, verbose bool) (bool, string) {
+	patterns := defaultPatterns
+	if m.Module != "" {
+		repo = filepath.Join(repo, m.Module)
+		patterns = []string{".", "./internal"}
+	}
 	path := filepath.Join(repo, m.File)
 	b, err := os.ReadFile(path)
 	if err != nil {
@@ -95,7 +108,7 @@ func runMutant(repo, verif string, m mutant, verbose bool) (bool, string) {
 		return false, fmt.Sprintf("pattern occurs %d times in %s", strings.Count(src, m.Old), m.File)
 	}
 	src = strings.Replace(src, m.Old, m.New, 1)
-	e, err := loadEngine(repo, verif, defaultPatterns, map[string][]byte{path: []byte(src)})
+	e, err := loadEngine(repo, verif, patterns, map[string][]byte{path: []byte(src)})
 	if err != nil {
 		return false, "load: " + err.Error()
 	}
